@@ -31,7 +31,7 @@ Definition eff_code (e : eff) : N := match e with ESigned => 1 | ERead => 2 | EC
 
 Inductive step :=
 | SMeth (l : list meth)  (* refuse unless the method is one of l *)
-| SAuth (m : mask)       (* checkAuth(w, r, mask); the admitted identity is recorded *)
+| SAuth (m : mask)       (* checkAuth(w, r, mask); the identity let in is recorded *)
 | SAdmin                 (* IsAdminUser(identity) *)
 | SAutoAdmin             (* isAutomationAdmin(identity) *)
 | SSelfOrAdminU2F        (* target user = identity, or IsAdminUserAndU2F(identity, level) *)
@@ -53,7 +53,7 @@ Record envx := {
   e_own : bool;                (* the route's own credential verifies *)
   e_check : bool }.            (* the remaining tests succeed *)
 
-Definition ident := option (N * N).       (* admitted (user, level) *)
+Definition ident := option (N * N).       (* (user, level) let in by checkAuth *)
 
 Fixpoint run (env : envx) (q : reqx) (steps : list step) (id : ident) : ident * list eff :=
   match steps with
